@@ -199,6 +199,9 @@ impl<L: Language> DeserializeEnv<L> {
         .insert(id, matcher)
         .map_err(RuleSerializeError::MatchesReference)?;
     }
+    // a global utility may refer to any other one: the references can only be
+    // verified now that all of them are registered
+    registration.verify_utils()?;
     Ok(registration)
   }
 
